@@ -21,13 +21,20 @@ def configs(tier, oracles=('model',)):
             add(dt, atom, it, route, 3)
         add('<i2', [], 'int8', 'create', 3, ['big'])      # index overflow of a small index type within reach
     else:
-        # every (value type, byte order) x atom x index type, routes rotated so that each occurs with each atom
+        # every (value type, byte order) with two (atom, index type, route) combinations, rotated so that every atom, index
+        # type and route occurs with every type kind; and the full atom x index type x route table for two value types
+        atoms = ([], [2], [2, 1])
         i = 0
         for dt in payload.ALL_DTYPES:
-            for atom in ([], [2], [2, 1]):
+            for j in (0, 1):
+                add(dt, atoms[(i + j) % 3], INDEXTYPES[(2 * i + j) % 7], ROUTES[(i + j) % 5], 3)
+            i += 1
+        k = 0
+        for dt in ('<f8', '>i4'):
+            for atom in atoms:
                 for it in INDEXTYPES:
-                    add(dt, atom, it, ROUTES[i % 5], 3)
-                    i += 1
+                    add(dt, atom, it, ROUTES[k % 5], 3)
+                    k += 1
         for dt, atom, it, route in [('<f8', [], 'int64', 'create'), ('>i4', [2], 'uint8', 'as2')]:
             add(dt, atom, it, route, 5)
         for dt, atom, it, route in [('<i2', [], 'int8', 'create'), ('|u1', [2], 'uint8', 'as2'), ('<f4', [], 'int8', 'gen')]:
